@@ -114,17 +114,28 @@ impl<const LM: bool> ParserDefinition<St, u8, Tk, u8> for Def<LM> {
     }
 }
 
-fn next_token_harness<const LM: bool, const NT: usize>() {
+/// A decision table of concrete (candidate count, candidate lengths, start position) cases; kinds, input bytes,
+/// partial_parse, "STOP expected" and the context are symbolic.  Why concrete: with symbolic lengths the `retain` of the
+/// longest-match filter moves a symbolic number of Tokens and CBMC exceeded the 13 GB cap; one concrete case costs about a
+/// minute, so the table is small: no candidate; one; two (shorter first, longer first, tie); three (tie between the last
+/// two which are longest; first longest; all equal).
+fn next_token_harness<const LM: bool>() {
+    next_token_case::<LM>(0, [1, 1, 1], 0);
+    next_token_case::<LM>(1, [2, 1, 1], 2);
+    next_token_case::<LM>(2, [1, 2, 1], 0);
+    next_token_case::<LM>(2, [2, 1, 1], 0);
+    next_token_case::<LM>(2, [2, 2, 1], 1);
+    next_token_case::<LM>(3, [1, 2, 2], 0);
+    next_token_case::<LM>(3, [2, 1, 1], 0);
+    next_token_case::<LM>(3, [1, 1, 1], 0);
+    kani::cover!(true, "all cases executed");
+}
+fn next_token_case<const LM: bool>(lexer_n: usize, lens: [usize; 3], start: usize) {
     let input: [u8; 4] = kani::any();
-    let lexer = SymLexer { n: kani::any(), kinds: kani::any(), lens: kani::any() };
-    kani::assume(lexer.n <= NT);
-    let start: usize = kani::any();
-    kani::assume(start <= 4);
-    kani::assume(lexer.lens[0] <= 4 - start && lexer.lens[1] <= 4 - start && lexer.lens[2] <= 4 - start);
+    let kinds: [u8; 3] = kani::any();
+    let lexer = SymLexer { n: lexer_n, kinds, lens };
     let def = Def::<LM> { stop_expected: kani::any() };
     let partial: bool = kani::any();
-    let lexer_n = lexer.n;
-    let (kinds, lens) = (lexer.kinds, lexer.lens);
     let parser: LRParser<Ctx, St, u8, Tk, u8, Def<LM>, SymLexer, TreeBuilder<[u8], u8, Tk>, [u8]> =
         LRParser::new(&def, St(0), partial, false, lexer, TreeBuilder::new());
     let mut ctx: Ctx = LRContext::new(Position { pos: start, line_col: None });
@@ -160,9 +171,6 @@ fn next_token_harness<const LM: bool, const NT: usize>() {
     } else {
         assert!(r.is_err(), "C12: no token and no STOP allowed: must be an error");
     }
-    kani::cover!(lexer_n == NT && lens[NT - 2] == lens[NT - 1] && lens[0] <= lens[NT - 1], "tie between the last two candidates");
-    kani::cover!(lexer_n == 0 && partial && def.stop_expected, "synthetic STOP");
-    kani::cover!(lexer_n == 0 && !partial, "error path");
     std::mem::forget(r);
     std::mem::forget(parser);
 }
@@ -183,21 +191,20 @@ fn stub_var_os<K: AsRef<std::ffi::OsStr>>(_key: K) -> Option<std::ffi::OsString>
     None
 }
 
-/// bounded(<= 2 candidate tokens (longest match on; 3 exceeded the 13 GB cap) / <= 3 (off), of length <= 4, at any position of
-/// a 4-byte input)
+/// bounded(eight concrete (count, lengths, position) cases with <= 3 candidate tokens; see next_token_harness)
 #[kani::proof]
 #[kani::unwind(6)]
 #[kani::stub(crate::error::error_expected, stub_error_expected)]
 #[kani::stub(std::env::var_os, stub_var_os)]
 fn next_token_longest_match() {
-    next_token_harness::<true, 2>()
+    next_token_harness::<true>()
 }
 #[kani::proof]
 #[kani::unwind(6)]
 #[kani::stub(crate::error::error_expected, stub_error_expected)]
 #[kani::stub(std::env::var_os, stub_var_os)]
 fn next_token_first_match() {
-    next_token_harness::<false, 3>()
+    next_token_harness::<false>()
 }
 
 // ---------------------------------------------------------------------------------------------------------------
